@@ -128,7 +128,8 @@ where
 {
     input
         .into_iter()
-        .filter_map(|t| LanguageIdentifier::try_from_bytes(t.as_ref().trim_ascii()).ok())
+        // a language tag may carry extensions (`fr-FR-u-ca-gregory`, `en-x-private`): they play no role in the negotiation.
+        .filter_map(|t| LanguageIdentifier::try_from_locale_bytes(t.as_ref().trim_ascii()).ok())
         .collect()
 }
 
